@@ -172,13 +172,22 @@ def classify_exception(exc):
 # known findings
 # ----------------------------------------------------------------------------
 def load_known_findings(prop):
-    path = os.path.join(VERIF_DIR, "known_findings.json")
-    if not os.path.exists(path):
-        return []
-    with open(path) as f:
-        data = json.load(f)
-    return [e for e in data.get("findings", [])
-            if e.get("property") == prop and e.get("status") == "known"]
+    paths = [os.path.join(VERIF_DIR, "known_findings.json")]
+    # known_findings.d/<ID>.json: work-in-progress entries of one property
+    # (merged into known_findings.json before they are relied upon)
+    d = os.path.join(VERIF_DIR, "known_findings.d")
+    if os.path.isdir(d):
+        paths += [os.path.join(d, fn) for fn in sorted(os.listdir(d))
+                  if fn.endswith(".json")]
+    out = []
+    for path in paths:
+        if not os.path.exists(path):
+            continue
+        with open(path) as f:
+            data = json.load(f)
+        out += [e for e in data.get("findings", [])
+                if e.get("property") == prop and e.get("status") == "known"]
+    return out
 
 
 def _cond(value, cond):
